@@ -65,19 +65,19 @@ def l2_specs(tier):
         add("load_freeze_drop", 3, 8)
         add("handoff", 3, 12)
         add("handoff3", 2, 8)
-        add("handoff_rebuild", 3, 16)
+        add("handoff_rebuild", 2, 8)
         add("str_hash2", 3, 8)
         add("str_hash", 2, 24)
         add("static_hash", 3, 12)
         add("static_hash3", 2, 8)
-        add("chunk_share", 9, 4, reduce=True)
-        add("chunk_share3", 8, 2, reduce=True)
-        add("load_freeze_drop", 12, reduce=True)
-        add("handoff", 6, 16, reduce=True)
-        add("handoff3", 4, 16, reduce=True)
-        add("handoff_rebuild", 5, 16, reduce=True)
-        add("static_hash", 10, reduce=True)
-        add("static_hash3", 6, 8, reduce=True)
+        add("chunk_share", 6, 2, reduce=True, cap=150000)
+        add("chunk_share3", 6, 2, reduce=True, cap=150000)
+        add("load_freeze_drop", 10, reduce=True, cap=150000)
+        add("handoff", 4, 8, reduce=True, cap=150000)
+        add("handoff3", 3, 8, reduce=True, cap=150000)
+        add("handoff_rebuild", 3, 8, reduce=True, cap=150000)
+        add("static_hash", 10, reduce=True, cap=150000)
+        add("static_hash3", 5, 8, reduce=True, cap=150000)
     return specs
 
 
